@@ -212,8 +212,14 @@ def candidate_scan_complete(ck, rule):
         return
     for g in gens:
         parents = {c: par for par in ast.walk(g.node) for c in ast.iter_child_nodes(par)}
-        exits = [x for x in ast.walk(g.node) if isinstance(x, (ast.Break, ast.Return)) and any(
-            isinstance(a, (ast.For, ast.While)) for a in _ancestors(parents, x))]
+        def own_loop_above(x):
+            for a in _ancestors(parents, x):
+                if isinstance(a, (ast.FunctionDef, ast.AsyncFunctionDef, ast.Lambda)):
+                    return False                 # a statement of a nested function: its `return` leaves that function, not the scan
+                if isinstance(a, (ast.For, ast.While)):
+                    return True
+            return False
+        exits = [x for x in ast.walk(g.node) if isinstance(x, (ast.Break, ast.Return)) and own_loop_above(x)]
         bad = None
         for x in exits:
             tests = [a.test for a in _ancestors(parents, x) if isinstance(a, ast.If)]
